@@ -3,11 +3,11 @@ CodeBuilder API for 1..3 phases, generated with definite-assignment and type
 tracking so that the written program is well defined (DESIGN.md §3.4)."""
 import numpy as np
 
-from simdag.gen.expr import (Bin, Call, Cmp, Const, IfX, Logic, Not, Pow, Sub, Var,
+from simdag.gen.expr import (Attr, Bin, Call, Cmp, Const, IfX, Logic, Not, Pow, Sub, Var,
                              expr_vars, has_call, render, text)
 
 TEMP_POOL = ["x", "y", "z", "w", "u", "v", "temp", "temp_0", "temp_1", "local_x",
-             "cond", "self", "numpy", "t", "dt", "global_state_y", "y0", "X", "localx",
+             "cond", "self", "numpy", "t", "dt", "global_state_y", "y0", "X", "localx", "real", "imag", "d",
              # names that only exist as objects (not parseable): punctuation twins, sanitising collisions
              "y^", "y*", "y_", "a.b", "a_b", "x-1", "cond_"]
 ARR_POOL = ["a", "b", "c", "arr", "vec"]
@@ -51,7 +51,7 @@ class Features:
     NAMES = ["loops", "var_bounds", "zero_trip", "nested_if", "else_", "if3", "strings",
              "fresh", "calls", "kwargs", "multi_assign", "arrays", "ifexpr", "phases",
              "fail", "switch", "restart", "raise_", "adv_names", "np_consts", "builtins",
-             "dead_code", "guarded_loops", "call_stmt", "logic"]
+             "dead_code", "guarded_loops", "call_stmt", "logic", "attrs"]
 
     def __init__(self, tape, p=0.6):
         with tape.span("features"):
@@ -256,8 +256,11 @@ class ScriptGen:
              2 if depth > 0 and F.calls and allow_calls else 0,   # 6 user call
              1 if arrs and F.builtins and depth > 0 else 0,       # 7 builtin on array
              1 if counters else 0,                # 8 counter
-             0.7 if depth > 0 else 0]             # 9 dyadic quotient
+             0.7 if depth > 0 else 0,             # 9 dyadic quotient
+             (3.0 if ("real" in D or "imag" in D) else 1.0) if vs and F.attrs else 0]   # 10 attribute lookup
         k = t.weighted(w, "num")
+        if k == 10:
+            return Attr(self.pick(vs, "attrv"), ["real", "real", "imag"][t.draw(3, "attr")])
         if k == 0:
             return self.const_num()
         if k == 1:
